@@ -11,6 +11,7 @@ Strings are written `x<hex of the UTF-8 bytes>` (so `x` is the empty string).
   point <t> <k=v;k=v…|->          → shard <group id> <shard id> <key> | err <kind>
   cond <tmin> <tmax> <cond…>      → groups <gid>=<sid,sid…> …          | err panic
 cond (prefix): `N` (nil) | `E <k> <v>` | `O` | `& x y` | `| x y` | `P x`.
+  hint <group id> <f|s> <cond…>   → shards <sid,sid…>   (TargetShardsHintQuery, full / specific series) | err panic
 
 Batches (OG.C11.Batch) are answered against a second catalogue, built by:
   cat <key,key…:h|r | ->                  database-level shard key; resets the catalogue   → ok
@@ -32,6 +33,7 @@ import OG.C11.Model
 import OG.C11.Batch
 import OG.C11.ReadMap
 import OG.C11.Alive
+import OG.C11.Hint
 
 namespace OG.C11
 
@@ -372,6 +374,18 @@ def step (M : Meta) (line : String) : Meta × String :=
       match writePoint hashID M ⟨t, tags⟩ with
       | .ok r => (M, "shard " ++ toString r.group.ID ++ " " ++ toString r.shard.ID ++ " " ++ showStr r.key)
       | .error e => (M, showErr e)
+    | _, _ => (M, "bad-op")
+  | "hint" :: gid :: kind :: cond =>
+    match gid.toNat?, parseCondOpt cond with
+    | some id, some c =>
+      match M.groups.find? (·.ID == id) with
+      | some g =>
+        if kind == "f" || kind == "s" then
+          match targetShardsHint true OG.Gen.C11.maxConditionTagGroups hashID M g c (kind == "s") with
+          | some ss => (M, "shards " ++ showIds ss)
+          | none => (M, "err panic")
+        else (M, "bad-op")
+      | none => (M, "bad-op")
     | _, _ => (M, "bad-op")
   | "cond" :: tmin :: tmax :: cond =>
     match tmin.toInt?, tmax.toInt?, parseCondOpt cond with
